@@ -245,19 +245,48 @@ def find_min(prog, run, fi, f, p_freq, p_order, tF, kinds, tables):
     run.ob("R-first-order", fi.qual, "every returned value is read at the scanned column", okc, "; ".join(repr(acc) for a, acc in items)[:200], "col", file=f, node=scan, config=cfg)
     rows = {astq.dump(acc.row) for a, acc in items if acc.row is not None}
     run.ob("R-first-order", fi.qual, "one row index for all values of a mode", len(rows) == 1, f"{len(rows)} distinct row expressions", str(len(rows)), file=f, node=scan, config=cfg)
-    # break + order_out in the qualifying branch
-    qif = astq.enclosing(pm, a0, (ast.If,))
-    while qif is not None and astq.enclosing(pm, qif, (ast.For,)) is not scan:
-        qif = astq.enclosing(pm, qif, (ast.If,))
-    if qif is None:
-        run.ob("R-first-order", fi.qual, "qualifying branch", None, "qualifying `if` directly inside the scan loop not found", file=f, config=cfg)
-        return
-    has_break = any(isinstance(s, ast.Break) for s in qif.body)
-    run.ob("R-first-order", fi.qual, "scan stops at the first qualifying column", has_break, "`break` in the qualifying branch" if has_break else "no `break`: a later (higher) order overwrites the result", "no-break", file=f, node=qif, config=cfg)
-    oo = [s for s in qif.body if isinstance(s, ast.Assign) and isinstance(s.value, ast.Name) and s.value.id == var]
+    # after the values of the qualifying column are appended the scan must be left (break on the same path) and that column reported:
+    # walk from the append up to the scan loop; in one of the enclosing statement lists a `break` (and `order_out = <scan variable>`)
+    # must follow the statement that contains the append
+    def blocks_up(node):
+        cur = node
+        while cur is not scan:
+            par = pm.get(cur)
+            if par is None:
+                return
+            for field in ("body", "orelse", "finalbody"):
+                lst = getattr(par, field, None)
+                if isinstance(lst, list) and cur in lst:
+                    yield par, lst, lst.index(cur)
+            cur = par
+    has_break = None
+    brk_block = None
+    for par, lst, k in blocks_up(a0):
+        if isinstance(par, ast.For) and par is not scan:
+            continue            # a break here would leave an inner loop only
+        if any(isinstance(s_, ast.Break) for s_ in lst[k + 1:]):
+            has_break, brk_block = True, (lst, k)
+            break
+    anybreak = any(isinstance(n_, ast.Break) for n_ in ast.walk(scan))
+    if has_break is None and not anybreak:
+        has_break = False
+    node_q = astq.enclosing(pm, a0, (ast.If,)) or scan
+    run.ob("R-first-order", fi.qual, "scan stops at the first qualifying column", has_break,
+           "`break` follows the appends on the qualifying path" if has_break else ("no `break`: a later (higher) order overwrites the result" if has_break is False else "a `break` exists but not on the path of the appends"),
+           "no-break", file=f, node=node_q, config=cfg)
     rets = [n for n in ast.walk(pf.node) if isinstance(n, ast.Return) and isinstance(n.value, ast.Tuple) and len(n.value.elts) > 3]
-    okr = bool(oo) and all(isinstance(r.value.elts[3], ast.Name) and r.value.elts[3].id == oo[0].targets[0].id for r in rets)
-    run.ob("R-first-order", fi.qual, "reported order is the qualifying column", okr, f"order_out <- {astq.src(oo[0].value) if oo else '?'}", "order_out", file=f, node=qif, config=cfg)
+    okr = None
+    oo = []
+    if brk_block is not None:
+        lst, k = brk_block
+        oo = [s_ for s_ in lst if isinstance(s_, ast.Assign) and len(s_.targets) == 1 and isinstance(s_.targets[0], ast.Name)
+              and any(isinstance(r.value.elts[3], ast.Name) and r.value.elts[3].id == s_.targets[0].id for r in rets)]
+        if oo:
+            v = astq.expr_at(pf, oo[-1], oo[-1].value)
+            okr = isinstance(v, ast.Name) and v.id == var
+            if not okr and not (isinstance(v, (ast.Name, ast.Constant, ast.BinOp))):
+                okr = None
+    run.ob("R-first-order", fi.qual, "reported order is the qualifying column", okr, f"order_out <- {astq.src(oo[-1].value) if oo else '?'}", "order_out", file=f, node=node_q, config=cfg)
 
 
 # ----------------------------------------------------------------------------- hand-over
